@@ -291,7 +291,11 @@ func (w *dnsWorld) afterOp(op *dnsOp) {
 	}
 }
 
-func (w *dnsWorld) onEntryInserted(e *dnsEntryObs) {}
+func (w *dnsWorld) onEntryInserted(e *dnsEntryObs) {
+	if w.mode == dnsModeC10 {
+		w.c10OverlapProbes(e)
+	}
+}
 
 func (w *dnsWorld) onEntriesRemoved(gone []*dnsEntryObs, before int) {
 	if w.mode == dnsModeC08 {
